@@ -18,6 +18,7 @@ import (
 var c01Lines = []string{
 	"", "a", "ab", "ba", "a b", "A", "é", "\xff", "b",
 	`x=5 y=a`, `x=7 y=b d=1s sz=1KB ip=10.0.0.1`, `x=abc`, `y=a`, `d=1h30m x=5.5`, `sz=2MiB y=b`, `ip=10.0.0.9 x=10`, `ip=notanip d=soon sz=big`, `x=-1 y="a b"`,
+	`x=a y=a`, `x=b y=a`, `{"x":true,"y":"a"}`, `{"x":false,"d":true,"sz":false,"ip":true}`,
 	`{"x":5,"y":"a"}`, `{"x":"7","y":"b","d":"1s"}`, `{"x":"abc"}`, `{"y":"a"}`, `{"x":5.5,"sz":"1KB","ip":"10.0.0.1"}`, `{"x":6,"y":"ab","ip":"10.0.0.77"}`,
 	"\x1b[31ma\x1b[0m", `{"_entry":"ab","y":"a"}`, `{"_entry":"A","y":"b"}`, `{"_entry":"x=5 y=a","b":"\u0061"}`,
 	"from 10.0.0.1 ok", "10.0.0.1 and 10.0.0.9", "peer 192.168.1.7", "v6 ::1 end", "no ip here", "10.0.0.9",
@@ -44,6 +45,8 @@ var c01Small = []mockq.Rec{
 	{Line: `y=b`, Labels: []mockq.KV{{K: "app", V: "x"}}},
 	{Line: `{"x":5,"y":"a"}`, Labels: []mockq.KV{{K: "app", V: "y"}}},
 	{Line: `a`, Labels: []mockq.KV{{K: "app", V: "x"}}},
+	{Line: `x=a y=a`, Labels: []mockq.KV{{K: "app", V: "y"}}},
+	{Line: `x=b y=a`, Labels: []mockq.KV{{K: "app", V: "x"}}},
 }
 
 func c01Triples() [][]mockq.Rec {
@@ -117,6 +120,7 @@ func c01Stages() []refmodel.Stage {
 		&refmodel.Decolorize{},
 		&refmodel.UnpackStage{},
 	)
+	a = append(a, &refmodel.Distinct{Labels: []string{"x", "y"}})
 	a = append(a, &refmodel.Distinct{Labels: []string{"y"}}, &refmodel.Distinct{Labels: []string{"y", "x"}}, &refmodel.Distinct{Labels: []string{"app"}})
 	return a
 }
@@ -300,7 +304,7 @@ func c01Run(r *vkit.Run) {
 		r.GlobalState("pipelines=3")
 	}
 	// (iii) order-dependent behaviour: every ordered triple of the small alphabet under pipelines with distinct
-	dist := []int{len(c01A) - 3, len(c01A) - 2, len(c01A) - 1}
+	dist := []int{len(c01A) - 4, len(c01A) - 3, len(c01A) - 2, len(c01A) - 1}
 	parsers := []int{36, 37}
 	filters := []int{1, 2, 13, 40, 44, 48, 67}
 	for n := range c01Tri {
